@@ -938,9 +938,11 @@ impl<'g, 's> LRTable<'g, 's> {
                 .map(|(idx, _)| self.grammar.term_by_index(TermIndex(idx)))
                 .collect::<Vec<_>>();
 
-            let term_prio = |term: &Terminal| -> u32 {
-                term.prio * 1000
-                    + if self.settings.lexical_disamb_most_specific {
+            // Priority first, then the length of the string recognizer.
+            let term_prio = |term: &Terminal| -> (u32, u32) {
+                (
+                    term.prio,
+                    if self.settings.lexical_disamb_most_specific {
                         match &term.recognizer {
                             Some(recognizer) => {
                                 (match recognizer {
@@ -952,7 +954,8 @@ impl<'g, 's> LRTable<'g, 's> {
                         }
                     } else {
                         0
-                    }
+                    },
+                )
             };
             terminals.sort_by(|&l, &r| {
                 let l_term_prio = term_prio(l);
